@@ -584,6 +584,9 @@ fn c10(a: &Args) -> Report {
         ("one-member-offloaded", vec![Op::w(1, 1), Op::Rot, Op::Offload { level: 1 }]),
         ("two-members", vec![Op::w(1, 1), Op::Rot, Op::w(0, 1), Op::Rot]),
         ("full-group-plus-one", vec![Op::w(1, 1), Op::Rot, Op::w(0, 1), Op::Rot, Op::w(2, 1), Op::Rot, Op::w(3, 1), Op::Rot]),
+        // a blob whose filter buffer was off-loaded while it was closed is active again
+        ("restored-offloaded", vec![Op::w(1, 1), Op::TryClose, Op::Offload { level: 0 }, Op::TryRestore]),
+        ("restored-offloaded-after-restart", vec![Op::w(1, 1), Op::Rot, Op::w(0, 1), Op::Rst, Op::TryClose, Op::Offload { level: 0 }, Op::TryRestore]),
     ] {
         let mut s = SeqSpec::new(&format!("C10/storage/group3/from-{pname}"), small.clone(), if thorough { 5 } else { 4 });
         s.prefix = prefix;
